@@ -35,12 +35,14 @@ THEOREMS = [
     "Scenic.C06.resolve_spec",
     "Scenic.C06.resolve_modifier",
     "Scenic.C06.topo_order",
-    "Scenic.C06.topo_order_single_modifiable",
-    "Scenic.C06.topo_order_all_modified",
-    "Scenic.C06.multi_modifiable_unordered_witness",
+    "Scenic.C06.topo_order_full",
+    "Scenic.C06.modifier_after_specifier",
     "Scenic.C06.evaluated_once",
+    "Scenic.C06.evaluate_ok",
+    "Scenic.C06.evaluate_total",
     "Scenic.C06.dup_name_reported",
-    "Scenic.C06.final_reported",
+    "Scenic.C06.final_reported_partial",
+    "Scenic.C06.final_by_modifier_unreported_witness",
     "Scenic.C06.tie_reported",
     "Scenic.C06.missing_dep_reported",
     "Scenic.C06.cycle_reported",
@@ -53,6 +55,8 @@ THEOREMS = [
     "Scenic.C06.builtin_perm_invariant",
     "Scenic.C06.two_modifiers_order_dependent",
     "Scenic.C06.regression_p3_p1_p3",
+    "Scenic.C06.regression_multi_modifiable",
+    "Scenic.C06.regression_modified_twice",
     "Scenic.C06.merge_most_derived",
     "Scenic.C06.merge_additive_collects",
     "Scenic.C06.merge_final_not_overridable",
@@ -64,6 +68,7 @@ SIDE = [
     "Scenic.C06.gen_docs_covered",
     "Scenic.C06.gen_table_wf",
     "Scenic.C06.gen_single_modifier_name",
+    "Scenic.C06.gen_modifier_orders_all",
 ]
 
 OT = "src/scenic/core/object_types.py"
@@ -141,15 +146,17 @@ def parse_map(s):
 
 
 def parse_lean(out):
-    """-> ('ok', assign, modifier, trace) | ('err', kind) | ('bad', text)"""
+    """-> ('ok', assign, modifier, trace, final) | ('err', kind) | ('bad', text);
+    final = {property: producer of its value} after the evaluation loop, or the text of the model's evaluation error"""
     ws = out.split(" ")
-    if ws[0] == "ok" and len(ws) == 4:
+    if ws[0] == "ok" and len(ws) == 5:
         trace = []
         if ws[3] != "-":
             for e in ws[3].split(";"):
                 node, props = e[:-1].split("[", 1)
                 trace.append((node, [p for p in props.split(",") if p]))
-        return ("ok", parse_map(ws[1]), parse_map(ws[2]), trace)
+        final = ws[4] if ws[4].startswith("evalerr:") else parse_map(ws[4])
+        return ("ok", parse_map(ws[1]), parse_map(ws[2]), trace, final)
     if ws[0] == "err" and len(ws) == 2:
         return ("err", ws[1])
     return ("bad", out)
@@ -318,7 +325,7 @@ def classify_exception(e):
 
 
 def finish_record(rec):
-    """events -> trace / assign / modifier (as node names)"""
+    """events -> trace / setters / assign / modifier (as node names)"""
     ids = rec.pop("_ids", {})
     rec.pop("obj", None)
     trace, cur = [], None
@@ -329,16 +336,16 @@ def finish_record(rec):
         elif cur is not None:
             cur[1].append(san(ev[1]))
     rec["trace"] = trace
-    assign, modifier, extra = {}, {}, []
+    setters = {}
     for node, props in trace:
         for p in props:
-            if p not in assign:
-                assign[p] = node
-            elif p not in modifier:
-                modifier[p] = node
-            else:
-                extra.append((p, node))
-    rec["assign"], rec["modifier"], rec["set_thrice"] = assign, modifier, extra
+            setters.setdefault(p, []).append(node)
+    # the first specifier to set a property is its specifier, the second its modifier (the oracle checks this
+    # reading against the reference, and reports a modifier that ran first as such)
+    rec["setters"] = setters
+    rec["assign"] = {p: ns[0] for p, ns in setters.items()}
+    rec["modifier"] = {p: ns[1] for p, ns in setters.items() if len(ns) > 1}
+    rec["set_thrice"] = [(p, ns) for p, ns in setters.items() if len(ns) > 2]
     rec["depviol"] = [(ids.get(i, "?"), m) for i, m in rec.get("depviol", [])]
     if rec.get("final"):
         rec["final"] = {san(p): ids.get(s) for p, s in rec["final"].items()}
@@ -349,7 +356,10 @@ def finish_record(rec):
 # =========================================================================== declarative reference (S)
 def reference(ci, specs):
     """What the reference manual says should happen, computed from descriptors only.
-    -> (defects:set, full:bool, expected or None); expected = (assign, modifier, edges, nodes)"""
+    -> (defects:set, full:bool, expected or None); expected = (assign, modifier, edges, nodes).
+    Defects of an earlier phase hide the later ones (duplicate names < final property / tie < modified twice <
+    cycle / missing dependency): `full` says whether the last phase was looked at.
+    Several modifying specifiers (which no Scenic program can write) are taken in the order of the list."""
     finals = set(ci["finals"])
     defects = set()
     names = [s["name"] for s in specs]
@@ -357,14 +367,14 @@ def reference(ci, specs):
         defects.add("dupName")
     normal = [s for s in specs if not s["mod"]]
     mods = [s for s in specs if s["mod"]]
-    for s in normal:
+    for s in specs:      # whatever the kind of specifier: a final property may not be specified
         for p, k in s["prios"]:
             if p in finals:
                 defects.add("finalProp")
     cnt = collections.Counter((p, k) for s in normal for p, k in s["prios"])
     if any(v > 1 for v in cnt.values()):
         defects.add("tie")
-    if len(mods) > 1 or defects:
+    if defects:
         return defects, False, None
     best = {}
     for s in normal:
@@ -377,6 +387,8 @@ def reference(ci, specs):
             if p not in best or k < best[p][1]:
                 best[p] = ("u:" + san(m["name"]), k)
             elif p in m["modifiable"]:
+                if san(p) in modifier:
+                    return {"modifiedTwice"}, False, None
                 modifier[san(p)] = "u:" + san(m["name"])
     assign = {san(p): n for p, (n, _) in best.items()}
     deps = {"u:" + san(s["name"]): s["deps"] for s in specs}
@@ -435,16 +447,20 @@ def oracle(ctx, rec, specs, replay):
         if ctx.violation(key + tagk, what + f" [class {rec['cls']}, specifiers {[s['name'] for s in specs]}]", replay):
             found = True
 
+    finals = set(ci["finals"])
+    fin_by = [(s["name"], p, s["mod"]) for s in specs for p, _ in s["prios"] if p in finals]
+    # a final property specified by modifying specifiers only (identity of the call site: the modifying pass)
+    fin_mod_only = bool(fin_by) and all(m for _, _, m in fin_by) and defects == {"finalProp"}
     if out[0] == "crash":
-        if out[1] == "NameError" and "'name'" in out[2]:
-            viol("modified-twice-raises-NameError",
-                 "two modifying specifiers modifying one property: NameError (undefined variable `name`) instead of SpecifierError")
-        else:
-            viol(f"crash:{out[1]}", f"specifier resolution raised {out[1]}: {out[2]}")
+        viol(f"crash:{out[1]}", f"specifier resolution raised {out[1]} (not a SpecifierError): {out[2]}")
         return found
     if out[0] == "ok":
-        for k in sorted(defects & {"dupName", "finalProp", "tie"}) + sorted(defects & {"cycle", "missingDep"}):
-            viol(f"unreported:{k}", f"defect `{k}` present but the object was created")
+        for k in sorted(defects, key=lambda d: (STAGE[d], d)):
+            if k == "finalProp" and fin_mod_only:
+                viol("final-specified-by-modifying-specifier",
+                     f"final property {fin_by[0][1]} is specified by the modifying specifier {fin_by[0][0]} and the object was created")
+            else:
+                viol(f"unreported:{k}", f"defect `{k}` present but the object was created")
         if rec["depviol"]:
             n, miss = rec["depviol"][0]
             viol("evaluated-before-dependency", f"specifier {n} evaluated before {miss} had a value")
@@ -452,64 +468,49 @@ def oracle(ctx, rec, specs, replay):
             viol("specified-thrice", f"a property was set three times: {rec['set_thrice'][:3]}")
         if full and not defects:
             assign, modifier, edges, nodes = exp
-            if rec["assign"] != assign:
+            pos = {n: i for i, (n, _) in enumerate(rec["trace"])}
+            # a modifier that ran before the specifier whose value it modifies
+            early = [(p, m) for p, m in modifier.items() if rec["setters"].get(p) == [m, assign[p]]]
+            if early:
+                p, m = early[0]
+                viol("evaluation-order", f"{m} modifies {p} but was evaluated before {assign[p]}, which specifies it")
+            elif rec["assign"] != assign:
                 diff = {p: (rec["assign"].get(p), assign.get(p)) for p in set(assign) | set(rec["assign"]) if rec["assign"].get(p) != assign.get(p)}
                 viol("wrong-winner", f"property -> specifier differs from the reference (real, expected): {dict(list(diff.items())[:4])}")
-            if rec["modifier"] != modifier:
+            elif rec["modifier"] != modifier:
                 viol("wrong-modifier", f"modifier differs: real {rec['modifier']} expected {modifier}")
-            pos = {n: i for i, (n, _) in enumerate(rec["trace"])}
             if sorted(pos) != sorted(nodes) or len(pos) != len(rec["trace"]):
                 viol("evaluated-set", f"specifiers evaluated {sorted(pos)[:8]}... expected {sorted(nodes)[:8]}...")
             else:
                 for n, cs in edges.items():
-                    for c in cs:
-                        if not pos[c] < pos[n]:
-                            viol("evaluation-order", f"{n} evaluated before {c}, which it depends on")
-                            break
-        if rec.get("final") is not None and rec["dry"]:
-            # the value of every property of the new object is the one produced last for it
-            for p, node in rec["final"].items():
-                want = rec["modifier"].get(p) or rec["assign"].get(p)
-                if node != want:
-                    viol("final-value", f"final value of {p} comes from {node}, expected {want}")
-                    break
+                    bad = sorted(c for c in cs if not pos[c] < pos[n])
+                    if bad:
+                        viol("evaluation-order", f"{n} evaluated before {bad[0]}, whose value it needs")
+                        break
+            if rec.get("final") is not None and rec["dry"]:
+                # the value of every property of the new object is the one produced by its modifier, else its specifier
+                want = {p: modifier.get(p) or n for p, n in assign.items()}
+                if rec["final"] != want:
+                    d = {p: (rec["final"].get(p), want.get(p)) for p in set(want) | set(rec["final"]) if rec["final"].get(p) != want.get(p)}
+                    viol("final-value", f"final values come from (real, expected): {dict(list(d.items())[:4])}")
         return found
     if out[0] == "err":
         kind = out[1]
-        if full and not defects:
-            viol("spurious-error", f"no defect present but resolution failed: {out[3]}")
-        elif kind in ("dupName", "finalProp", "tie") and kind not in defects:
-            viol(f"wrong-error:{kind}", f"error `{out[3]}` but no such defect is present")
-        elif kind in ("cycle", "missingDep") and (defects & {"dupName", "finalProp", "tie"}):
-            viol(f"masked-error:{kind}", f"reported {kind} although {sorted(defects)} present")
-        elif kind in ("cycle", "missingDep") and full and kind not in defects:
-            viol(f"wrong-error:{kind}", f"error `{out[3]}` but no such defect is present (present: {sorted(defects)})")
+        if kind == "?":
+            ctx.hist("unrecognised_error_message", out[3][:40])
+        elif not defects:
+            if full:
+                viol("spurious-error", f"no defect present but resolution failed: {out[3]}")
+        else:
+            first = min(STAGE[d] for d in defects)
+            if kind not in defects and fin_mod_only and STAGE.get(kind, 0) > 2:
+                viol("final-specified-by-modifying-specifier",
+                     f"final property {fin_by[0][1]} is specified by the modifying specifier {fin_by[0][0]}; not reported (a later check failed: {kind})")
+            elif kind not in defects:
+                viol(f"wrong-error:{kind}", f"error `{out[3]}` but no such defect is present (present: {sorted(defects)})")
+            elif STAGE[kind] != first:
+                viol(f"masked-error:{kind}", f"reported {kind} although {sorted(defects)} present")
     return found
-
-
-def beyond_builtins(ctx, rec, specs, replay):
-    """Lists no Scenic program can produce (several modifying specifiers, or one that may modify several
-    properties): only the two latent defects recorded as known findings are looked for."""
-    out = rec["outcome"]
-    if out[0] == "crash":
-        if out[1] == "NameError" and "'name'" in out[2]:
-            return ctx.violation("modified-twice-raises-NameError",
-                                 "two modifying specifiers modifying one property: NameError (undefined variable `name`) "
-                                 "instead of SpecifierError", replay)
-        return ctx.violation(f"crash:{out[1]}", f"specifier resolution raised {out[1]}: {out[2]}", replay)
-    mods = [s for s in specs if s["mod"]]
-    if out[0] == "ok" and len(mods) == 1:
-        defects, full, exp = reference(rec["classinfo"], specs)
-        if full:
-            assign, modifier, edges, nodes = exp
-            pos = {n: i for i, (n, _) in enumerate(rec["trace"])}
-            m = "u:" + san(mods[0]["name"])
-            early = [p for p, mm in modifier.items() if mm == m and assign[p] in pos and m in pos and pos[m] < pos[assign[p]]]
-            if "cycle" in defects or early:
-                return ctx.violation("multi-modifiable-modifier-ordered-after-last-only",
-                                     f"modifying specifier {m} may modify several properties; it was evaluated before the "
-                                     f"specifier of {early or sorted(modifier)} (only the last modified property is ordered)", replay)
-    return False
 
 
 def signature(rec):
@@ -521,19 +522,16 @@ def signature(rec):
     return out[:2]
 
 
+def order_independent(specs):
+    """the hypothesis of `resolve_perm_invariant`: at most one modifying specifier (any list a Scenic program can
+    write: `on` is the only modifying specifier, theorem `builtin_single_modifier`)"""
+    return sum(1 for s in specs if s["mod"]) <= 1
+
+
 # =========================================================================== Lean correspondence
-def well_formed(specs):
-    """the situation of the built-ins: at most one modifying specifier, allowed to modify at most one property.
-    Outside it the real code orders a modifier only after the specifier of the *last* property it modifies, so
-    'the first specifier to set a property is its specifier' cannot be read off the evaluation trace."""
-    mods = [s for s in specs if s["mod"]]
-    return len(mods) <= 1 and all(len(s["modifiable"]) <= 1 for s in mods)
-
-
 def compare_with_lean(ctx, rec, lean_out, line, label):
     """model vs real outcome; returns True on disagreement"""
     lo = parse_lean(lean_out)
-    wf = well_formed(rec.get("prepared", []))
     out = rec["outcome"]
     bad = None
     if lo[0] == "bad":
@@ -542,32 +540,31 @@ def compare_with_lean(ctx, rec, lean_out, line, label):
         if lo[0] != "ok":
             bad = f"model: {lean_out[:60]}; real: object created"
         else:
-            _, la, lm, lt = lo
-            if wf and la != rec["assign"]:
+            _, la, lm, lt, lf = lo
+            ln = {n: sorted(ps) for n, ps in lt}
+            rn = {n: sorted(ps) for n, ps in rec["trace"]}
+            if la != rec["assign"]:
                 d = {p: (la.get(p), rec["assign"].get(p)) for p in set(la) | set(rec["assign"]) if la.get(p) != rec["assign"].get(p)}
                 bad = f"assignment differs (model, real): {dict(list(d.items())[:4])}"
-            elif wf and lm != rec["modifier"]:
+            elif lm != rec["modifier"]:
                 bad = f"modifier differs: model {lm} real {rec['modifier']}"
+            elif ln != rn:
+                d = [n for n in set(ln) | set(rn) if ln.get(n) != rn.get(n)]
+                bad = f"evaluated specifiers / properties set differ at {d[:4]}"
+            elif isinstance(lf, str):
+                bad = f"the model's evaluation loop failed ({lf}); the real one created the object"
+            elif rec.get("final") is not None and rec["dry"] and lf != rec["final"]:
+                d = {p: (lf.get(p), rec["final"].get(p)) for p in set(lf) | set(rec["final"]) if lf.get(p) != rec["final"].get(p)}
+                bad = f"final context differs (model, real): {dict(list(d.items())[:4])}"
             else:
-                ln = {n: sorted(ps) for n, ps in lt}
-                rn = {n: sorted(ps) for n, ps in rec["trace"]}
-                if ln != rn:
-                    d = [n for n in set(ln) | set(rn) if ln.get(n) != rn.get(n)]
-                    bad = f"evaluated specifiers / properties set differ at {d[:4]}"
-                else:
-                    ctx.hist("order_exactly_as_model", [n for n, _ in lt] == [n for n, _ in rec["trace"]])
+                ctx.hist("order_exactly_as_model", [n for n, _ in lt] == [n for n, _ in rec["trace"]])
     elif out[0] == "err":
         if lo[0] != "err":
             bad = f"model: ok; real: {out[3][:80]}"
         elif out[1] != "?" and lo[1] != out[1]:
             bad = f"model error {lo[1]}; real error {out[1]} ({out[3][:60]})"
-        elif out[1] == "?":
-            ctx.hist("unrecognised_error_message", out[3][:40])
     elif out[0] == "crash":
-        if out[1] == "NameError" and "'name'" in out[2] and lo == ("err", "modifiedTwice"):
-            pass
-        else:
-            bad = f"model: {lean_out[:60]}; real: {out[1]}: {out[2][:80]}"
+        bad = f"model: {lean_out[:60]}; real: {out[1]}: {out[2][:80]}"
     else:
         bad = f"real outcome {out}"
     if bad:
@@ -666,6 +663,87 @@ def run_synthetic_case(case, perm=None):
     return rec
 
 
+def _sp(name, prios, deps=(), mod=False, modifiable=()):
+    return {"name": name, "prios": [list(pk) for pk in prios], "deps": sorted(deps), "mod": mod, "modifiable": sorted(modifiable)}
+
+
+# Inputs of defects that were repaired in /repo (and a few boundary shapes): run first, in every order.
+REGRESSION_CASES = [
+    # 9d666edb: ties per priority level, whatever the order ([p3,p1,p3] was accepted)
+    {"kind": "synthetic", "label": "tie-p3-p1-p3", "defaults": [("a", [], False)],
+     "specs": [_sp("S0", [("a", 3)]), _sp("S1", [("a", 1)]), _sp("S2", [("a", 3)])]},
+    # c434d71a: "modified twice" must be a SpecifierError
+    {"kind": "synthetic", "label": "modified-twice", "defaults": [("a", [], False)],
+     "specs": [_sp("S0", [("a", 1)]), _sp("S1", [("a", 2)], mod=True, modifiable=["a"]), _sp("S2", [("a", 3)], mod=True, modifiable=["a"])]},
+    # fe083d88: a modifying specifier runs after the specifiers of *all* the properties it modifies ...
+    {"kind": "synthetic", "label": "multi-modifiable-order", "defaults": [],
+     "specs": [_sp("S1", [("a", 1), ("b", 1), ("c", 3)], mod=True, modifiable=["a", "b", "c"]), _sp("S5", [("c", 1)]), _sp("S0", [("b", 1)])]},
+    # ... and a cycle through a modified property other than the last one is reported
+    {"kind": "synthetic", "label": "multi-modifiable-cycle", "defaults": [("c", ["b"], False)],
+     "specs": [_sp("S5", [("c", 1)]), _sp("S0", [("b", 1)], deps=["a"]), _sp("S1", [("a", 1), ("b", 1), ("c", 3)], mod=True, modifiable=["a", "b", "c"])]},
+    # a dependency on a modified property is a dependency on the modifier
+    {"kind": "synthetic", "label": "dep-on-modified", "defaults": [("d", ["a"], False)],
+     "specs": [_sp("S0", [("a", 1)]), _sp("S1", [("a", 1), ("b", 2)], mod=True, modifiable=["a"]), _sp("S2", [("c", 1)], deps=["a", "b"])]},
+    # a modifying specifier of strictly higher priority specifies instead of modifying; of lower priority and
+    # not allowed to modify: yields silently
+    {"kind": "synthetic", "label": "modifier-overrides", "defaults": [("a", [], False), ("b", [], False)],
+     "specs": [_sp("S0", [("a", 2), ("b", 1)]), _sp("S1", [("a", 1), ("b", 2)], mod=True, modifiable=[])]},
+    # final properties: specified by a normal specifier / default depending on a final / cycle among defaults
+    {"kind": "synthetic", "label": "final-normal", "defaults": [("a", [], True), ("b", ["a"], False)],
+     "specs": [_sp("S0", [("a", 1)]), _sp("S1", [("b", 1)])]},
+    {"kind": "synthetic", "label": "default-cycle", "defaults": [("a", ["b"], False), ("b", ["a"], False)],
+     "specs": [_sp("S0", [("c", 1)])]},
+    {"kind": "synthetic", "label": "default-cycle-broken-by-specifier", "defaults": [("a", ["b"], False), ("b", ["a"], False)],
+     "specs": [_sp("S0", [("a", 1)])]},
+    {"kind": "synthetic", "label": "missing-dep", "defaults": [("a", ["x"], False)], "specs": [_sp("S0", [("b", 1)], deps=["x"])]},
+    {"kind": "synthetic", "label": "dup-name-and-tie", "defaults": [("a", [], False)],
+     "specs": [_sp("S0", [("a", 1)]), _sp("S0", [("a", 1)]), _sp("S1", [("b", 1)], deps=["x"])]},
+]
+
+
+def run_group(ctx, case, perms, lines, recs):
+    """one synthetic case in several orders: the property on each outcome, then order independence.
+    -> found"""
+    found = False
+    k = len(case["specs"])
+    group = []
+    for perm in perms:
+        try:
+            rec = run_synthetic_case(case, perm)
+        except Exception as e:  # construction-time refusals (e.g. a specifier depending on its own property)
+            ctx.hist("synthetic_construction", type(e).__name__)
+            break
+        if "prepared" not in rec:
+            ctx.hist("synthetic_construction", "no-resolution")
+            break
+        specs = rec["prepared"]
+        replay = {"kind": "synthetic", "case": case, "perm": list(perm)}
+        ctx.case(("syn", case["defaults"], [case["specs"][j] for j in perm]), nontrivial=k >= 1)
+        ctx.hist("synthetic_outcome", rec["outcome"][0] + (":" + rec["outcome"][1] if rec["outcome"][0] != "ok" else ""))
+        ctx.hist("synthetic_nspecs", k)
+        ctx.hist("synthetic_nmodifying", sum(1 for s in specs if s["mod"]))
+        if any(s["mod"] and len(s["modifiable"]) > 1 for s in specs):
+            ctx.hist("synthetic_shape", "modifier-of-several-properties")
+        found |= oracle(ctx, rec, specs, replay)
+        group.append((perm, rec))
+        lines.append("C06 resolve 3 " + class_token(rec["classinfo"]) + " " + " ".join(spec_token(s) for s in specs))
+        recs.append(rec)
+    # order independence (hypothesis of the theorem: at most one modifying specifier)
+    if group and order_independent(group[0][1]["prepared"]):
+        sigs = {}
+        for perm, rec in group:
+            sigs.setdefault(signature(rec), perm)
+        if len(sigs) > 1:
+            (s1, p1), (s2, p2) = list(sigs.items())[:2]
+            if ctx.violation("order-dependence:synthetic",
+                             f"outcome depends on the order of the specifiers: order {p1} -> {s1[:2]}, order {p2} -> {s2[:2]}",
+                             {"kind": "synthetic", "case": case, "perm": list(p1), "perm2": list(p2)}):
+                found = True
+    elif group:
+        ctx.hist("synthetic_perm_check", "skipped:several-modifying-specifiers")
+    return found
+
+
 def synthetic_stream(ctx, use_lean):
     rng = ctx.rng
     n = bud(ctx, 2000, 20000)
@@ -673,46 +751,14 @@ def synthetic_stream(ctx, use_lean):
     lines, recs = [], []
     HOOKS.install()
     try:
+        for case in REGRESSION_CASES:
+            case = json.loads(json.dumps(case))
+            found |= run_group(ctx, case, list(itertools.permutations(range(len(case["specs"])))), lines, recs)
         for i in range(n):
             case = make_synthetic_case(rng, i)
             k = len(case["specs"])
             perms = list(itertools.permutations(range(k))) if k <= 3 else [tuple(range(k))] + [tuple(rng.sample(range(k), k)) for _ in range(5)]
-            group = []
-            for perm in perms:
-                try:
-                    rec = run_synthetic_case(case, perm)
-                except Exception as e:  # construction-time refusals (e.g. a specifier depending on its own property)
-                    ctx.hist("synthetic_construction", type(e).__name__)
-                    break
-                if "prepared" not in rec:
-                    ctx.hist("synthetic_construction", "no-resolution")
-                    break
-                specs = rec["prepared"]
-                replay = {"kind": "synthetic", "case": case, "perm": list(perm)}
-                nmods = sum(s["mod"] for s in specs)
-                ctx.case(("syn", case["defaults"], [case["specs"][j] for j in perm]), nontrivial=k >= 1)
-                ctx.hist("synthetic_outcome", rec["outcome"][0] + (":" + rec["outcome"][1] if rec["outcome"][0] != "ok" else ""))
-                ctx.hist("synthetic_nspecs", k)
-                if well_formed(specs):
-                    found |= oracle(ctx, rec, specs, replay)
-                else:
-                    found |= beyond_builtins(ctx, rec, specs, replay)
-                group.append((perm, rec, nmods))
-                lines.append("C06 resolve 3 " + class_token(rec["classinfo"]) + " " + " ".join(spec_token(s) for s in specs))
-                recs.append(rec)
-            # order independence (hypothesis of the theorem: at most one modifying specifier)
-            if group and well_formed(group[0][1]["prepared"]):
-                sigs = {}
-                for perm, rec, _ in group:
-                    sigs.setdefault(signature(rec), perm)
-                if len(sigs) > 1:
-                    (s1, p1), (s2, p2) = list(sigs.items())[:2]
-                    if ctx.violation("order-dependence:synthetic",
-                                     f"outcome depends on the order of the specifiers: order {p1} -> {s1[:2]}, order {p2} -> {s2[:2]}",
-                                     {"kind": "synthetic", "case": case, "perm": list(p1), "perm2": list(p2)}):
-                        found = True
-            elif group:
-                ctx.hist("synthetic_perm_check", "skipped:several-modifying-specifiers")
+            found |= run_group(ctx, case, perms, lines, recs)
     finally:
         HOOKS.uninstall()
     if use_lean and lines:
@@ -832,12 +878,102 @@ def replay_merge(rep):
     print("   final:", sorted(cls._finalProperties), "dynamic:", sorted(cls._dynamicProperties))
 
 
-def synthetic_merge_stream(ctx, use_lean):
-    """random small hierarchies built with type(); also checks the documented rules directly."""
+def check_merge_case(ctx, shape, spec, props):
+    """build the hierarchy `shape` with the per-class property definitions `spec`; the documented rules on the result.
+    -> (found, item or None); item = (decls, real, sources) for the comparison with the model"""
     from scenic.core.errors import InvalidScenarioError, SpecifierError
     from scenic.core.lazy_eval import LazilyEvaluable
-    from scenic.core.object_types import Constructible
-    from scenic.core.specifiers import PropertyDefault
+    found = False
+    rep = {"kind": "merge", "shape": shape, "spec": spec, "props": list(props)}
+    order = HIERARCHY[shape]
+    classes = {}
+    real, err = None, None
+    err_at = None
+    try:
+        for j, nme in enumerate(order):
+            bases = hierarchy_bases(shape, j, classes)
+            err_at = nme
+            classes[nme] = build_class(nme, bases, [tuple(x) for x in spec[nme]])
+        cls = classes[order[-1]]
+        real = real_merge(cls)
+    except InvalidScenarioError:
+        err = ("InvalidScenarioError", err_at)
+    except SpecifierError:  # a dynamic property forced a resolution at class creation time and it failed
+        ctx.hist("merge_case", "skipped:resolution-failed-at-class-creation")
+        return False, None
+    except Exception as e:
+        if ctx.violation(f"class-creation-crash:{type(e).__name__}", f"class creation raised {type(e).__name__}: {e}", rep):
+            found = True
+        return found, None
+    if err is not None:
+        # the class whose creation failed: its MRO is the one being merged
+        j = order.index(err[1])
+        mro_names = {"single": [[0]], "chain2": [[0], [1, 0]], "chain3": [[0], [1, 0], [2, 1, 0]],
+                     "diamond": [[0], [1, 0], [2, 0], [3, 2, 1, 0]]}[shape][j]
+        decls = [(f"K{m}", [tuple(x) for x in spec[f"K{m}"]]) for m in mro_names]
+    else:
+        decls = [(sc.__name__, [tuple(x) for x in spec[sc.__name__]]) for sc in cls.__mro__ if sc.__name__ in spec]
+    ctx.case(("merge", decls), nontrivial=len(decls) > 1)
+    ctx.hist("merge_case", "refused" if real is None else "merged")
+    sources = None
+    if real is not None:
+        # direct oracle: documented rules
+        seen_first = {}
+        for nme, ps in decls:
+            for p, deps, add, dyn, fin in ps:
+                seen_first.setdefault(p, []).append((nme, deps, add, dyn, fin))
+        sources = {}
+        for p, lst in seen_first.items():
+            primary = lst[0]
+            ctxobj = LazilyEvaluable.makeContext(**{x: 0 for x in props})
+            val = cls._defaults[p].getValuesFor(ctxobj)[p]
+            want = tuple((n, p) for n, *_ in lst) if primary[2] else (primary[0], p)
+            sources[p] = [n for n, *_ in lst] if primary[2] else [primary[0]]
+            if val != want:
+                if ctx.violation("default-not-most-derived", f"default of {p} evaluates to {val}, expected {want}", rep):
+                    found = True
+            if (p in real[1]) != primary[4]:
+                if ctx.violation("final-flag", f"finality of {p} is {p in real[1]}, most derived definition says {primary[4]}", rep):
+                    found = True
+            wdeps = sorted(set(primary[1]).union(*[set(d) for _, d, *_ in lst[1:]])) if primary[2] else sorted(primary[1])
+            rdeps = dict(real[0]).get(p)
+            if rdeps is not None and sorted(rdeps) != wdeps:
+                if ctx.violation("default-dependencies", f"default of {p} depends on {sorted(rdeps)}, the definitions say {wdeps}", rep):
+                    found = True
+            if (p in real[2]) != any(d for _, _, _, d, _ in lst):
+                if ctx.violation("dynamic-flag", f"{p} dynamic: {p in real[2]}, the definitions say {any(d for _, _, _, d, _ in lst)}", rep):
+                    found = True
+        missing = set(seen_first) - {p for p, _ in real[0]}
+        extra = {p for p, _ in real[0]} - set(seen_first)
+        if missing or extra:
+            if ctx.violation("default-set", f"class defaults: missing {sorted(missing)}, unexpected {sorted(extra)}", rep):
+                found = True
+    else:
+        # a refusal must be justified: some overridden definition is final
+        just = False
+        seen = {}
+        for nme, ps in decls:
+            for p, deps, add, dyn, fin in ps:
+                if p in seen and fin:
+                    just = True
+                seen[p] = True
+        if not just:
+            if ctx.violation("spurious-class-error", "class creation refused although no final property is overridden", rep):
+                found = True
+    if real is not None:
+        # the converse: an overridden final definition must have been refused
+        seen = {}
+        for nme, ps in decls:
+            for p, deps, add, dyn, fin in ps:
+                if p in seen and fin:
+                    if ctx.violation("final-overridden", f"{p} is final in {nme} but a more derived class overrides it and the class was created", rep):
+                        found = True
+                seen[p] = True
+    return found, (decls, real, sources)
+
+
+def synthetic_merge_stream(ctx, use_lean):
+    """random small hierarchies built with type(); also checks the documented rules directly."""
     rng = ctx.rng
     found = False
     lines, items = [], []
@@ -845,8 +981,7 @@ def synthetic_merge_stream(ctx, use_lean):
         props = ["p", "q", "r", "s"][: rng.choice([2, 3, 4])]
         shape = rng.choice(["chain2", "chain3", "diamond", "single"])
         spec = {}
-
-        def mk(name):
+        for nme in HIERARCHY[shape]:
             ps = []
             for p in props:
                 if rng.random() < 0.55:
@@ -855,80 +990,12 @@ def synthetic_merge_stream(ctx, use_lean):
                     dyn = (not add) and rng.random() < 0.15
                     fin = rng.random() < 0.12
                     ps.append((p, deps, add, dyn, fin))
-            spec[name] = ps
-            return ps
-
-        def build(name, bases):
-            return build_class(name, bases, spec[name])
-        order = HIERARCHY[shape]
-        for nme in order:
-            mk(nme)
-        classes = {}
-        real, err = None, None
-        try:
-            for j, nme in enumerate(order):
-                bases = hierarchy_bases(shape, j, classes)
-                err_at = nme
-                classes[nme] = build(nme, bases)
-            cls = classes[order[-1]]
-            real = real_merge(cls)
-        except InvalidScenarioError as e:
-            err = ("InvalidScenarioError", err_at)
-        except SpecifierError as e:  # a dynamic property forced a resolution at class creation time and it failed
-            ctx.hist("merge_case", "skipped:resolution-failed-at-class-creation")
-            continue
-        except Exception as e:
-            if ctx.violation(f"class-creation-crash:{type(e).__name__}", f"class creation raised {type(e).__name__}: {e}",
-                             {"kind": "merge", "shape": shape, "spec": spec}):
-                found = True
-            continue
-        if err is not None:
-            # the class whose creation failed: its MRO is the one being merged
-            j = order.index(err[1])
-            mro_names = {"single": [[0]], "chain2": [[0], [1, 0]], "chain3": [[0], [1, 0], [2, 1, 0]],
-                         "diamond": [[0], [1, 0], [2, 0], [3, 2, 1, 0]]}[shape][j]
-            decls = [(f"K{m}", spec[f"K{m}"]) for m in mro_names]
-        else:
-            decls = [(sc.__name__, spec[sc.__name__]) for sc in cls.__mro__ if sc.__name__ in spec]
-        ctx.case(("merge", decls), nontrivial=len(decls) > 1)
-        ctx.hist("merge_case", "refused" if real is None else "merged")
-        sources = None
-        if real is not None:
-            # direct oracle: documented rules
-            seen_first = {}
-            for nme, ps in decls:
-                for p, deps, add, dyn, fin in ps:
-                    seen_first.setdefault(p, []).append((nme, deps, add, dyn, fin))
-            sources = {}
-            for p, lst in seen_first.items():
-                primary = lst[0]
-                ctxobj = LazilyEvaluable.makeContext(**{x: 0 for x in props})
-                val = cls._defaults[p].getValuesFor(ctxobj)[p]
-                want = tuple((n, p) for n, *_ in lst) if primary[2] else (primary[0], p)
-                sources[p] = [n for n, *_ in lst] if primary[2] else [primary[0]]
-                if val != want:
-                    if ctx.violation("default-not-most-derived", f"default of {p} evaluates to {val}, expected {want}",
-                                     {"kind": "merge", "shape": shape, "spec": spec}):
-                        found = True
-                if (p in real[1]) != primary[4]:
-                    if ctx.violation("final-flag", f"finality of {p} is {p in real[1]}, most derived definition says {primary[4]}",
-                                     {"kind": "merge", "shape": shape, "spec": spec}):
-                        found = True
-        else:
-            # a refusal must be justified: some overridden definition is final
-            just = False
-            seen = {}
-            for nme, ps in decls:
-                for p, deps, add, dyn, fin in ps:
-                    if p in seen and fin:
-                        just = True
-                    seen[p] = True
-            if not just:
-                if ctx.violation("spurious-class-error", "class creation refused although no final property is overridden",
-                                 {"kind": "merge", "shape": shape, "spec": spec}):
-                    found = True
-        lines.append(merge_line(decls))
-        items.append((decls, real, sources))
+            spec[nme] = ps
+        f, item = check_merge_case(ctx, shape, spec, props)
+        found |= f
+        if item is not None:
+            lines.append(merge_line(item[0]))
+            items.append(item)
     if use_lean and lines:
         outs = ctx.driver(lines)
         for (decls, real, sources), out in zip(items, outs):
@@ -970,6 +1037,10 @@ class Cyc:
 
 class Miss:
     p: self.nonexistent
+    allowCollisions: True
+
+class Fin:
+    parentOrientation[final]: (0.1, 0, 0)
     allowCollisions: True
 
 '''
@@ -1062,7 +1133,7 @@ USER_ATOMS = [
     ("with q 4", "With", ["'q'", "4"], {}, "With", "q"),
     ("with nonexistent 5", "With", ["'nonexistent'", "5"], {}, "With", "nonexistent"),
 ]
-CLASSES = ["Object", "OrientedPoint", "Point", "A", "B", "Cyc", "Miss", "Hd"]
+CLASSES = ["Object", "OrientedPoint", "Point", "A", "B", "Cyc", "Miss", "Fin", "Hd"]
 WET_OK = {"With", "At", "Facing", "FacingToward", "FacingAwayFrom", "OffsetBy", "Beyond", "ApparentlyFacing"}
 
 _LANG = {}   # state shared between run_language() and drive() (which is called from inside the Scenic program)
@@ -1115,8 +1186,9 @@ def plan_cases(ctx, rng, mode2d):
             groups.append(("Object", list(q)))
     # user classes: all subsets up to size 2 of the class atoms (+ one built-in), all orders
     uidx = list(range(nb, len(allatoms)))
-    some_builtin = [k for k, a in enumerate(allatoms) if a[0] in ("at (1,2,0)", "facing 0.3", "with width 2", "with heading 0.4", "on regOri", "visible", "left of op")]
-    for c in ("A", "B", "Cyc", "Miss") + (("Hd",) if mode2d else ()):
+    some_builtin = [k for k, a in enumerate(allatoms) if a[0] in ("at (1,2,0)", "facing 0.3", "with width 2", "with heading 0.4", "on regOri", "visible", "left of op",
+                                                                   "in regOri", "on regPlain", "with parentOrientation 0.2")]
+    for c in ("A", "B", "Cyc", "Miss", "Fin") + (("Hd",) if mode2d else ()):
         groups.append((c, []))
         for i in uidx + some_builtin:
             groups.append((c, [i]))
@@ -1561,6 +1633,7 @@ def run(ctx):
             raise TemplateMismatch("no documentation table")
         ctx.gen("SpecTable", spectable.to_lean(code, docs, spectable.extract_modifier_order()))
     except TemplateMismatch as e:
+        ctx.gen_restore("SpecTable")     # never leave a stale table from an earlier run
         ctx.escalated.append(f"translator tie lost (spectable): {e}")
         ctx.notes.append(f"translator tie lost for the table of built-in specifiers: {e}; relying on the correspondence at thorough budget")
     pr = ctx.prove(THEOREMS, side_conditions=SIDE)
@@ -1605,14 +1678,42 @@ def run(ctx):
 
 
 # =========================================================================== replay
+class _ReplayCtx:
+    """stands in for the check context while a replay file is re-executed: collects what the oracles report"""
+
+    def __init__(self):
+        self.found = []
+
+    def violation(self, key, what, replay, no_input=False):
+        self.found.append((key, what))
+        return True
+
+    def hist(self, *a, **k):
+        pass
+
+    def case(self, *a, **k):
+        return True
+
+    def broken(self, *a, **k):
+        pass
+
+
+def arm_replay():
+    HOOKS.pending = dict(dry=True, src="replay")
+
+
 def replay(ctx, path):
+    """re-executes the recorded input on $SCENIC_REPO; exit status 1 (and a `reproduced` line) when the property
+    is violated on it, 0 when it holds"""
     body = json.load(open(path))
     rep = body.get("replay", body)
     kind = rep.get("kind")
+    rctx = _ReplayCtx()
     import scenic
     if kind == "synthetic":
         HOOKS.install()
         try:
+            sigs = []
             for key in ("perm", "perm2"):
                 if key in rep:
                     rec = run_synthetic_case(rep["case"], rep[key])
@@ -1620,30 +1721,85 @@ def replay(ctx, path):
                     print("   outcome:", rec["outcome"], "exception:", rec.get("exception"))
                     print("   assignment:", rec.get("assign"), "modifier:", rec.get("modifier"))
                     print("   evaluation:", [n for n, _ in rec.get("trace", [])])
+                    if "prepared" in rec:
+                        oracle(rctx, rec, rec["prepared"], {})
+                        sigs.append(signature(rec))
+            if len(sigs) == 2 and sigs[0] != sigs[1]:
+                rctx.violation("order-dependence:synthetic", f"outcome depends on the order: {sigs[0][:2]} vs {sigs[1][:2]}", {})
         finally:
             HOOKS.uninstall()
     elif kind == "language":
+        from translate import spectable
+        sigs = []
         for key in ("specifiers", "specifiers2"):
             if key not in rep:
                 continue
             line = f"x = new {rep['class']} {', '.join(rep[key])}" if rep[key] else f"x = new {rep['class']}"
-            code = prelude(rep["mode2D"]) + line + "\n_C06.show(x)\n"
             print(f"--- {'2D' if rep['mode2D'] else '3D'}: {line}")
             try:
-                scenic.scenarioFromString(code, mode2D=rep["mode2D"])
+                scenic.scenarioFromString(prelude(rep["mode2D"]) + line + "\n_C06.show(x)\n", mode2D=rep["mode2D"])
             except Exception as e:
                 print("   raised", type(e).__name__ + ":", str(e)[:300])
+            # the same statement once more under the recording hooks, for the oracles
+            HOOKS.install()
+            HOOKS.records.clear()
+            try:
+                try:
+                    scenic.scenarioFromString(prelude(rep["mode2D"]) + "_C06.arm_replay()\n" + line + "\n", mode2D=rep["mode2D"])
+                except Exception as e:
+                    print("   (recording run raised", type(e).__name__ + ")")
+                recs = [finish_record(r) for r in HOOKS.records]
+            finally:
+                HOOKS.records.clear()
+                HOOKS.armed = HOOKS.pending = None
+                HOOKS.uninstall()
+            for rec in recs:
+                if "prepared" not in rec:
+                    continue
+                print("   outcome:", rec["outcome"][:2], "assignment of the specifiers:", {p: n for p, n in rec["assign"].items() if n.startswith("u:")},
+                      "modifier:", rec["modifier"])
+                rec["keytag"] = ""
+                oracle(rctx, rec, rec["prepared"], {})
+                msg = check_prepare(rec, rep["mode2D"], rep["class"])
+                if msg:
+                    rctx.violation("prepare2D", msg, {})
+                if rep.get("manual"):
+                    docs = spectable.extract_docs()
+                    for d, syn in zip(rec["raw"], rep[key]):
+                        atom = next((a for a in ATOMS + USER_ATOMS if a[0] == syn), None)
+                        m = check_against_manual(d, atom, docs) if atom else None
+                        if m:
+                            rctx.violation(f"manual:{atom[4]}", f"`{syn}`: {m}", {})
+                sigs.append(signature(rec))
+        if len(sigs) == 2 and sigs[0] != sigs[1]:
+            rctx.violation("order-dependence", f"outcome depends on the order: {sigs[0][:2]} vs {sigs[1][:2]}", {})
     elif kind == "merge":
         replay_merge(rep)
+        check_merge_case(rctx, rep["shape"], rep["spec"], rep.get("props", ["p", "q", "r", "s"]))
     elif kind == "class":
-        code = prelude(rep["mode2D"]) + rep["snippet"]
+        code = prelude(rep["mode2D"]) + rep["snippet"] + "raise _C06._Done()\n"
+        got = None
         try:
             scenic.scenarioFromString(code, mode2D=rep["mode2D"])
-            print("class definition accepted")
         except Exception as e:
-            print("raised", type(e).__name__ + ":", str(e)[:300])
+            got = type(e).__name__
+            if got != "_Done":
+                print("raised", got + ":", str(e)[:300])
+        got = None if got == "_Done" else got
+        if got is None:
+            print("class definition accepted")
+        want = next(((w3, w2) for _, sn, w3, w2 in CLASS_ERROR_SNIPPETS if sn == rep["snippet"]), None)
+        if want is not None and got != (want[1] if rep["mode2D"] else want[0]):
+            rctx.violation("class-definition", f"gave {got}, expected {want[1] if rep['mode2D'] else want[0]}", {})
     else:
         print(json.dumps(rep, indent=1)[:4000])
+        print("(no concrete input recorded in this file: nothing to re-execute)")
+        return 0
+    if rctx.found:
+        for key, what in rctx.found[:6]:
+            print(f"reproduced: [{key}] {what[:400]}")
+        return 1
+    print("not reproduced: the property holds on this input")
     return 0
 
 
